@@ -72,6 +72,16 @@ def h_call(shape, L):
                 # batch: the call at position pos among n entries
                 n, pos = shape["n"], shape["pos"]
                 multi = jsonrpc.MultiCall(proxy, config=config)
+                if shape.get("reuse"):
+                    # an all-notification batch first (empty reply), then the same object is used again
+                    multi._notify.other(101)
+                    multi._notify.other(102)
+                    first = multi()
+                    if first is None or len(first) != 0:
+                        return 13
+                    if len(other_log) != 2:
+                        return 14
+                    del other_log[:]
                 slot = None
                 answered = 0
                 expected_other = 0
@@ -114,8 +124,15 @@ def h_call(shape, L):
             return 9
         if history.responses != [entry[3] for entry in transport.log]:
             return 10
-        if len(transport.log) != 1:
+        if len(transport.log) != (2 if shape.get("reuse") else 1):
             return 11
+        if shape.get("reuse"):
+            try:
+                sent = codec.loads(transport.log[1][2])
+            except ValueError:
+                sent = None
+            if type(sent) is not list or len(sent) != shape["n"]:
+                return 15  # jobs of the first batch were sent again
         for text in history.requests + history.responses:
             if type(text) is not str:
                 return 12
